@@ -5,8 +5,8 @@ use educe::Educe;
 use core::cmp::Ordering;
 #[derive(Educe)]
 #[educe(PartialEq)]
-pub enum T { Some {  }, V1, Zed }
-pub fn values() -> Vec<T> { vec![T::Some {  }, T::V1, T::Zed] }
-pub fn show(x: &T) -> String { #[allow(unused_variables)] match x { T::Some {  } => format!("Some()"), T::V1 => format!("V1()"), T::Zed => format!("Zed()") } }
-pub fn o_eq(a: &T, b: &T) -> bool { match (a, b) { (T::Some {  }, T::Some {  }) => true, (T::V1, T::V1) => true, (T::Zed, T::Zed) => true, _ => false } }
+pub struct T(A<0>);
+pub fn values() -> Vec<T> { vec![T(A(0)), T(A(1)), T(A(7))] }
+pub fn show(x: &T) -> String { #[allow(unused_variables)] match x { T(p0) => format!("T({})", sv(p0)) } }
+pub fn o_eq(a: &T, b: &T) -> bool { match (a, b) { (T(a0), T(b0)) => (a0 == b0) } }
 pub fn run(out: &mut Out) { let vs = values(); for a in &vs { for b in &vs { let e = o_eq(a, b); out.check((a == b) == e, "eq_28", "eq", || format!("{} == {} expected {}", show(a), show(b), e)); out.check((a != b) == !e, "eq_28", "ne", || format!("{} != {} expected {}", show(a), show(b), !e)); } } }
